@@ -216,6 +216,65 @@ func c18HistExec(c *core.Ctx, in c18Hist) {
 	})
 }
 
+// c18Reuse2: several delivery messages decoded one after the other into ONE container value. After every successful
+// decode the body named by the header's message type, and the re-encoding of the container, must be what a fresh
+// container gives for the same octets (optional parts of an earlier message — also of one whose decode failed half-way —
+// must not survive into a later one).
+type c18ContainerReuse struct {
+	Msgs []string `json:"messages_hex"`
+}
+
+func c18BodyOf(u *uePolicyContainer.UePolDeliverySer) any {
+	switch u.GetHeaderMessageType() {
+	case uePolicyContainer.MsgTypeManageUEPolicyCommand:
+		return u.ManageUEPolicyCommand
+	case uePolicyContainer.MsgTypeManageUEPolicyComplete:
+		return u.ManageUEPolicyComplete
+	case uePolicyContainer.MsgTypeManageUEPolicyReject:
+		return u.ManageUEPolicyReject
+	}
+	return nil
+}
+
+func c18ContainerReuseExec(c *core.Ctx, in c18ContainerReuse) {
+	c.Distinct(core.Hash64("container-reuse", fmt.Sprint(in.Msgs)), true)
+	fail := func(k, w string) { c.FailCase("container-reuse|"+k, w, "container-reuse", in) }
+	shared := uePolicyContainer.NewUePolDeliverySer()
+	for i, h := range in.Msgs {
+		data := unhex(h)
+		fresh := uePolicyContainer.NewUePolDeliverySer()
+		var e1, e2, ee1, ee2 error
+		var b1, b2 []byte
+		pi := core.Try(func() {
+			e1 = fresh.UePolDeliverySerDecode(append([]byte{}, data...))
+			e2 = shared.UePolDeliverySerDecode(append([]byte{}, data...))
+			if e1 == nil && e2 == nil {
+				b1, ee1 = fresh.UePolDeliverySerEncode()
+				b2, ee2 = shared.UePolDeliverySerEncode()
+			}
+		})
+		if pi != nil {
+			fail(pi.Key(), fmt.Sprintf("decode %d of the sequence panics: %s", i+1, pi.Msg))
+			return
+		}
+		if (e1 == nil) != (e2 == nil) {
+			fail("verdict-depends-on-earlier-decodes", fmt.Sprintf("message %d (%x): a fresh container gives %v, the reused one %v", i+1, clip(data), e1, e2))
+			return
+		}
+		if e1 != nil {
+			continue
+		}
+		if !reflect.DeepEqual(c18BodyOf(fresh), c18BodyOf(shared)) {
+			fail("body-depends-on-earlier-decodes", fmt.Sprintf("message %d (%x) decoded into the reused container gives a body that differs from the one a fresh container gives", i+1, clip(data)))
+			return
+		}
+		if (ee1 == nil) != (ee2 == nil) || !bytes.Equal(b1, b2) {
+			fail("reencoding-depends-on-earlier-decodes", fmt.Sprintf("message %d (%x): re-encoding the reused container gives %x (%v), a fresh one %x (%v)", i+1, clip(data), clip(b2), ee2, clip(b1), ee1))
+			return
+		}
+	}
+}
+
 func c18MsgJudge(in c18Msg, fail func(k, w string)) {
 	var enc []byte
 	var err error
@@ -858,6 +917,35 @@ func c18Run(c *core.Ctx) {
 			}
 		}
 	}
+	// container reuse: every truncation of four valid messages (command with / without classmark, complete, reject) and
+	// the messages themselves as first decode, optionally a complete / reject in between, then each valid message
+	{
+		noCm := append([]byte{5, 1, 0, byte(len(wl) >> 8), byte(len(wl))}, wl...)
+		four := [][]byte{valid["UePolDeliverySerDecode"], noCm, {7, 2}, valid["reject"]}
+		var firsts [][]byte
+		for _, v := range four {
+			for cut := 0; cut <= len(v); cut++ {
+				firsts = append(firsts, v[:cut])
+			}
+		}
+		for fi, f := range firsts {
+			if !mine() {
+				continue
+			}
+			if !c.Begin("container-reuse", "UePolDeliverySerDecode", c18Raw{Parser: "UePolDeliverySerDecode", Hex: hexs(f)}) {
+				continue
+			}
+			for _, b := range four {
+				c18ContainerReuseExec(c, c18ContainerReuse{Msgs: []string{hexs(f), hexs(b)}})
+				n++
+				for _, mid := range four[2:] {
+					c18ContainerReuseExec(c, c18ContainerReuse{Msgs: []string{hexs(f), hexs(mid), hexs(b)}})
+					n++
+				}
+			}
+			_ = fi
+		}
+	}
 	c.Add("evaluations", n)
 	if c.Shard == 0 {
 		c.Sample("msg", 1, func() any {
@@ -872,6 +960,7 @@ func init() {
 	core.RegisterKind("C18", "msg", c18MsgExec)
 	core.RegisterKind("C18", "raw", c18RawExec)
 	core.RegisterKind("C18", "hist", c18HistExec)
+	core.RegisterKind("C18", "container-reuse", c18ContainerReuseExec)
 	core.RegisterKind("C18", "reuse", c18ReuseExec)
 	core.RegisterKind("C18", "plmn", c18PlmnExec)
 	core.RegisterProp(&core.PropSpec{
@@ -882,7 +971,7 @@ func init() {
 			if tier == "thorough" {
 				l = "7"
 			}
-			return "totality: every byte string of length <= " + l + " over a 12-value alphabet into the six parsers (delivery message, section-management list content, result content, sub-list contents, section contents, sub-result contents), all 256 message types, and the <=2-mutation neighbourhood of valid encodings of every message kind; round trip: command messages with 0..2 sublists x 0..2 instructions x 0..2 policy parts (content lengths 0,1,2,300) with and without classmark, complete with every PTI, reject with 0..2 sub-results x 0..2 results, nested lists alone, all built through the API only, lists serialised again after their part contents were replaced through the API, and lists built with one reused builder value for all parts; PLMN: every MCC 100..999 x every MNC 10..999. Oracle: no panic; encoded bytes equal a reference encoder (every length field = length of what follows, PLMN per TS 24.008 10.5.1.3 as produced by nasConvert.PlmnIDToNas); decode(encode(m)) yields the same structure. Histories: every truncation and every 12-value replacement of the valid encodings through its parser — alone, followed by a successful parse, and in pairs of truncations — followed by a probe of each message kind judged like a fresh round trip (results must not depend on earlier calls, in particular not on parses that stopped with an error). Serialiser hygiene on list / result-list cases: structure unchanged by MarshalBinary, second serialisation after the caller overwrote the first result gives the same octets, result survives serialising another list. Parser inputs sit in a guarded buffer (spare capacity, canaries) that must be unchanged."
+			return "totality: every byte string of length <= " + l + " over a 12-value alphabet into the six parsers (delivery message, section-management list content, result content, sub-list contents, section contents, sub-result contents), all 256 message types, and the <=2-mutation neighbourhood of valid encodings of every message kind; round trip: command messages with 0..2 sublists x 0..2 instructions x 0..2 policy parts (content lengths 0,1,2,300) with and without classmark, complete with every PTI, reject with 0..2 sub-results x 0..2 results, nested lists alone, all built through the API only, lists serialised again after their part contents were replaced through the API, and lists built with one reused builder value for all parts; PLMN: every MCC 100..999 x every MNC 10..999. Oracle: no panic; encoded bytes equal a reference encoder (every length field = length of what follows, PLMN per TS 24.008 10.5.1.3 as produced by nasConvert.PlmnIDToNas); decode(encode(m)) yields the same structure. Histories: every truncation and every 12-value replacement of the valid encodings through its parser — alone, followed by a successful parse, and in pairs of truncations — followed by a probe of each message kind judged like a fresh round trip (results must not depend on earlier calls, in particular not on parses that stopped with an error). Serialiser hygiene on list / result-list cases: structure unchanged by MarshalBinary, second serialisation after the caller overwrote the first result gives the same octets, result survives serialising another list. Parser inputs sit in a guarded buffer (spare capacity, canaries) that must be unchanged. Container reuse: every truncation of four valid delivery messages (command with and without classmark, complete, reject) decoded into one container, optionally a complete / reject next, then each valid message — verdict, the body named by the message type and the re-encoding must equal those of a fresh container."
 		},
 		Assumptions: []string{"result causes are normalised to 'protocol error, unspecified' by the encoder itself"},
 		Finish:      finishDistinct("distinct by (parser, input octets) / message description / PLMN; non-trivial = raw inputs of at least three octets, messages with at least one sublist or sub-result, every PLMN"),
